@@ -147,11 +147,15 @@ class Result:
         return (self.halt, tuple(self.trace), tuple(self.stack))
 
 
-def run(block, state, gas_meter=False):
-    """Execute `block` from `state`.  Returns Result; raises OOG / Underflow."""
+def run(block, state, gas_meter=False, shared=None):
+    """Execute `block` from `state`.  Returns Result; raises OOG / Underflow.
+    `block` may be a generator; if `shared` is given, shared["st"] is the live machine stack, so a generator can
+    read the results of the instructions it has issued (used by the specification evaluator)."""
     env = _env_for(state.salt, state.env_over)
     salt = state.salt
     st = list(state.stack)
+    if shared is not None:
+        shared["st"] = st
     mem = {}  # address -> byte, only written bytes
     sto = {}  # key -> value, only written keys (tagged with the epoch of the write)
     trace = []
@@ -557,9 +561,15 @@ def compare(block_a, block_b, state, gas_meter=False):
     try:
         rb = run(block_b, state, gas_meter)
     except OOG:
-        return "oog"
+        # the original runs within the memory a real machine can pay for, the new block does not
+        return {"kind": "oog-introduced"}
     except Underflow as e:
         return {"kind": "underflow", "at": str(e)}
+    return compare_results(ra, rb, state)
+
+
+def compare_results(ra, rb, state):
+    """First observable difference between two runs from the same state, or None."""
     if ra.halt != rb.halt:
         return {"kind": "halt", "a": ra.halt, "b": rb.halt}
     if ra.trace != rb.trace:
